@@ -292,6 +292,24 @@ pub fn run(ctx: &Ctx) -> CheckResult {
             cfg_cases.push(mk("all-flags", &|c| c.steps[0].argv.extend(["--no-blocks", "--no-intrinsics", "--no-arguments", "--no-diff-switches", "--no-calls", "--show-instr-offsets"].iter().map(|x| s(x)))));
         }
     }
+    // two adjacent 16-bit fields at their extremes at once (sizes, offsets: products that wrap): every
+    // aligned dword of the first entry header of the ANM files with embedded images set to FFFFFFFF /
+    // FFFF7FFF / 7FFFFFFF, for the image-loading commands and the default decompile
+    for t in targets.iter().filter(|t| t.bundled && t.name.starts_with("res/th12-embedded")) {
+        for off in (0..64usize).step_by(4) {
+            for (vi, val) in [[0xFFu8, 0xFF, 0xFF, 0xFF], [0xFF, 0x7F, 0xFF, 0xFF], [0xFF, 0xFF, 0xFF, 0x7F]].iter().enumerate() {
+                if quick && vi > 0 && off % 8 != 4 {
+                    continue;
+                }
+                let ops: Vec<crate::case::CorruptOp> = (0..4).map(|b| crate::case::CorruptOp::Set { off: off + b, val: val[b] }).collect();
+                for k in [5usize, 0] {
+                    let mut c = target_case(t, k, &ops, "");
+                    c.name = format!("{} [dword@{}={:02x}{:02x}{:02x}{:02x}]", c.name, off, val[0], val[1], val[2], val[3]);
+                    cfg_cases.push(c);
+                }
+            }
+        }
+    }
     // where the file lives relative to the working directory, with non-ASCII directory names: given by
     // absolute path from a sibling directory (names that diverge inside a multi-byte character, names
     // that share only their first byte, ASCII names), from below the working directory, from a parent
